@@ -29,7 +29,8 @@ RULE = ("seeded operation sequences (6-30 steps) over 10 names incl. "
         "set_symbolic_ref/import_refs/pack_refs(all|tags)/reopen/switch-handle/"
         "stale-lock + every read (get, read_ref, contains, follow, as_dict, "
         "keys(base), allkeys, get_symrefs, get_peeled); backends files (two "
-        "handles), dict, reftable. Distinct by hash of the op sequence and "
+        "handles), dict, reftable, and the namespaced view over the files "
+        "backend (with a bystander ref of the enclosing repository). Distinct by hash of the op sequence and "
         "clock configuration; non-trivial when the sequence contains a "
         "pack_refs or handle switch between two writes.")
 ASSUMPTIONS = [
@@ -44,7 +45,8 @@ ASSUMPTIONS = [
 ]
 COMPONENTS = {
     "real": ["dulwich.refs.DiskRefsContainer", "dulwich.refs.DictRefsContainer",
-             "dulwich.reftable.ReftableRefsContainer", "dulwich.file.GitFile",
+             "dulwich.reftable.ReftableRefsContainer",
+             "dulwich.refs.NamespacedRefsContainer", "dulwich.file.GitFile",
              "tmpfs"],
     "stub": ["clock and file timestamps (granularity, zero step)",
              "stat metadata (virtual inode numbers)", "random (reftable names)"],
@@ -68,6 +70,7 @@ S1 = "refs/heads/sym"
 L1 = "refs/heads/l1"
 L2 = "refs/heads/l2"
 HEAD = "HEAD"
+OUTSIDE = "refs/heads/outside"
 PLAIN = [A, AB, B, C_, T, TX, RM]
 ALL = [HEAD, *PLAIN, S1, L1, L2]
 BAD_NAMES = ["refs/heads/a..b", "refs/heads/.hid", "refs/heads/x.lock",
@@ -97,6 +100,11 @@ def budget(tier):
 def gen_plan(seed, tier):
     rng = random.Random(derive_seed(seed, "c16plan"))
     backend = rng.choice(["files"] * 9 + ["dict", "dict", "reftable"])
+    # round 5: the namespaced view over the files backend (its own generator,
+    # so that the other plans of a seed stay what they were)
+    if random.Random(derive_seed(seed, "c16ns")).random() < 0.12:
+        backend = "namespaced"
+    filesy = backend in ("files", "namespaced")
     n = rng.randint(6, 30)
     nv = [0]
 
@@ -111,7 +119,7 @@ def gen_plan(seed, tier):
         used.append(val(nv[0]))
         return used[-1]
     ops = []
-    restricted = backend != "files"
+    restricted = not filesy
     for _ in range(n):
         r = rng.random()
         name = rng.choice(ALL if not restricted else
@@ -139,7 +147,7 @@ def gen_plan(seed, tier):
             src = rng.choice([HEAD, HEAD, S1, L1, L2])
             tgt = {HEAD: rng.choice([A, B, C_, S1, AB]), S1: B, L1: L2,
                    L2: L1}[src]
-            if backend == "files" and rng.random() < 0.15:
+            if filesy and rng.random() < 0.15:
                 # a symbolic ref under a name that may collide, as directory
                 # versus file, with a plain ref (loose or packed)
                 src, tgt = rng.choice([(A, C_), (AB, B)])
@@ -147,9 +155,9 @@ def gen_plan(seed, tier):
         elif r < 0.55:
             ops.append({"k": "symref", "name": rng.choice([HEAD, HEAD, S1]),
                         "target": rng.choice([A, B, C_])})
-        elif r < 0.64 and backend == "files":
+        elif r < 0.64 and filesy:
             ops.append({"k": "pack", "all": rng.random() < 0.75})
-        elif r < 0.73 and backend == "files":
+        elif r < 0.73 and filesy:
             ops.append({"k": rng.choice(["reopen", "switch", "switch",
                                          "switch"])})
         elif r < 0.75 and backend == "files":
@@ -176,7 +184,7 @@ def gen_plan(seed, tier):
                         "ns": rng.choice([0, 1, 10**6, 10**9, 3 * 10**9])})
         else:
             ops.append({"k": "read", "name": name})
-    if backend == "files" and rng.random() < 0.12:
+    if filesy and rng.random() < 0.12:
         # what one handle knows about packed-refs goes stale: it looks, the
         # other handle writes a ref and packs it, the first one acts on it
         x = rng.choice([A, B, C_, T, RM])
@@ -262,6 +270,7 @@ def run_plan(plan):
     global REFUSED
     REFUSED = _refused()
     backend = plan["kind"]
+    filesy = backend in ("files", "namespaced")
     sim = Sim(seed=plan["seed"], sched={"policy": "sequential"},
               clock=plan["clock"], step_cap=5_000_000)
     viols = []
@@ -279,7 +288,10 @@ def run_plan(plan):
         m = Model()
         # initial state: HEAD -> refs/heads/a (unborn), some packed refs
         with open(os.path.join(gitdir, "HEAD"), "wb") as f:
-            f.write(b"ref: refs/heads/a\n")
+            # HEAD is shared between the namespaces; what the view writes
+            # into it names the target inside the namespace
+            f.write(b"ref: refs/namespaces/ns/refs/heads/a\n"
+                    if backend == "namespaced" else b"ref: refs/heads/a\n")
         m.d[HEAD] = SYM + A
         peeled = {}
         peel_of = {}  # value -> what the initial packed-refs says it peels to
@@ -295,12 +307,21 @@ def run_plan(plan):
                 m.d[nm] = v
             with open(os.path.join(gitdir, "packed-refs"), "wb") as f:
                 f.write(b"".join(lines))
+        if backend == "namespaced":
+            # a ref of the enclosing repository: never seen nor touched
+            # through the namespaced view
+            with open(os.path.join(gitdir, OUTSIDE), "wb") as f:
+                f.write(val(4242).encode() + b"\n")
         for p, _, _ in simfs.real_walk(gitdir):
             fs.touch_path(p)
 
         def mk():
             if backend == "files":
                 return DiskRefsContainer(gitdir)
+            if backend == "namespaced":
+                from dulwich.refs import NamespacedRefsContainer
+                return NamespacedRefsContainer(DiskRefsContainer(gitdir),
+                                               b"ns")
             if backend == "dict":
                 c = DictRefsContainer({})
                 c.set_symbolic_ref(b"HEAD", A.encode())
@@ -313,7 +334,7 @@ def run_plan(plan):
         state = {"wrote": False, "since_pack": False}
 
         def body(a):
-            handles = [mk(), mk() if backend == "files" else None]
+            handles = [mk(), mk() if filesy else None]
             hi = 0
             for si, op in enumerate(plan["ops"]):
                 c = handles[hi]
@@ -341,7 +362,9 @@ def run_plan(plan):
                     state["since_pack"] = True
                 # observable state through this handle and a fresh one
                 _compare(c, m, desc, "same-handle", peeled)
-                if backend == "files":
+                if backend == "namespaced":
+                    _outside(m, desc)
+                if filesy:
                     _compare(mk(), m, desc, "fresh-handle", peeled)
                     other = handles[1 - hi]
                     if other is not None and si % 3 == 0:
@@ -393,6 +416,11 @@ def run_plan(plan):
                     stats["probe:empty_dirs_at_ref_path"] = 1
                 return
             if k == "badname":
+                if backend == "namespaced" and "//" in op["name"]:
+                    # below refs/namespaces/<ns>/ an empty path component is
+                    # the one defect _check_refname deliberately tolerates
+                    # (DeprecationWarning, dulwich 1.2.3 compatibility)
+                    return
                 try:
                     c[op["name"].encode()] = op["new"].encode()
                     viol("invalid-name-accepted", f"{desc}")
@@ -611,6 +639,34 @@ def run_plan(plan):
                              f"{desc}: operation succeeded although "
                              f"{nm}.lock existed")
 
+        def _outside(m, desc):
+            """What the enclosing repository sees: its own ref untouched, and
+            every ref of the view under refs/namespaces/ns/ (HEAD is shared)."""
+            u = DiskRefsContainer(gitdir)
+            pre = "refs/namespaces/ns/"
+            try:
+                if u.read_ref(OUTSIDE.encode()) != val(4242).encode():
+                    viol("namespace-leak/outside-ref-changed",
+                         f"{desc}: {OUTSIDE} = {u.read_ref(OUTSIDE.encode())}")
+                want = {OUTSIDE: val(4242)}
+                for nm, v in m.d.items():
+                    if v.startswith(SYM):
+                        v = SYM + pre + v[len(SYM):]
+                    want[nm if nm == HEAD else pre + nm] = v
+                got = {}
+                for k in u.allkeys():
+                    rv = u.read_ref(k)
+                    got[k.decode()] = rv.decode() if rv is not None else None
+                if got != want:
+                    viol("namespace-leak/underlying-refs-differ",
+                         f"{desc}: got-not-want "
+                         f"{sorted(set(got.items()) - set(want.items()))[:3]} "
+                         f"want-not-got "
+                         f"{sorted(set(want.items()) - set(got.items()))[:3]}")
+            except Exception as e:  # noqa: BLE001
+                viol(f"namespace-leak/underlying-unreadable/"
+                     f"{type(e).__name__}", f"{desc}: {e!r}")
+
         def _read(name, c, m, desc):
             from dulwich.refs import SymrefLoop as SL
             nb = name.encode()
@@ -765,7 +821,7 @@ def run_plan(plan):
         if act.exc is not None:
             viol(f"harness-or-unexpected-exception/{type(act.exc).__name__}",
                  repr(act.exc))
-        if backend == "files":
+        if filesy:
             left = [p for p in util.snapshot(gitdir) if p.endswith(".lock")]
             if left:
                 viol("lock-left-behind", f"{left}")
